@@ -273,6 +273,18 @@ def _unsanitised_leaves(prog, fn, e, params):
                 out.append(x[1])
             elif root in names and root not in seen:
                 seen.add(root)
+                # a path buffer edited in place (push / pop / set_file_name ..) after - or instead of - being sanitised
+                for b2, t2 in fn.all_calls():
+                    d2, r2, _ = prog.callee_of(t2)
+                    nm2 = r2 or d2 or ""
+                    if nm2.split("::")[-1] in ("push", "pop", "set_file_name", "set_extension", "extend") and "Path" in nm2 and nm2.startswith(("camino::", "std::path::")):
+                        e2 = eb.call(b2, t2)
+                        if e2[3]:
+                            rcv = e2[3][0]
+                            while rcv[0] == "ref":
+                                rcv = rcv[2]
+                            if rcv[0] == "place" and rcv[1] == root:
+                                out.append("edited-in-place:" + nm2.split("::")[-1])
                 for d in fn.defs(names[root]):
                     if d[0] in ("assign", "call"):
                         st.append(eb._def_expr(d, 0, (names[root],)))
@@ -290,12 +302,15 @@ def _unsanitised_leaves(prog, fn, e, params):
 @rule("C12", "C12-R2", 15, "every path handed to a filesystem API by the native filestore (and by the trait's process_request) is a get_native_path result")
 def c12_r2(ctx):
     fns = [f for f in ctx.prog.by_norm.values() if f.crate == "cfdp_core" and ((f.impl_trait or "").endswith("filestore::FileStore") or (f.in_trait or "").endswith("filestore::FileStore"))]
+    if not fns:
+        raise Anchor("C12-R2", "impl FileStore for NativeFileStore")
+    # inherent helpers of the native filestore reach the filesystem with the same rights as the trait methods
+    seen_ = {f.norm for f in fns}
+    fns = fns + [f for f in ctx.prog.by_norm.values() if f.crate == "cfdp_core" and f.kind != "Closure" and "filestore::NativeFileStore::" in f.norm and f.norm not in seen_ and f.name != "new"]
     allf = []
     for f in fns:
         allf.append(f)
         allf.extend(ctx.prog.closures_of(f))
-    if not fns:
-        raise Anchor("C12-R2", "impl FileStore for NativeFileStore")
     counts = {}
     for f in allf:
         if f.name == "get_native_path":
